@@ -42,11 +42,18 @@ func storeWorkloadBody(r *simcore.Run, prop string) {
 	dir := r.Dir("st-0")
 	r.Disk.Attach(dir)
 	e := newStoreEnv(r, cfg, dir)
+	if prop == "C04" && r.Pct(40) {
+		e.wideKeys = r.Pick(30, 60, 120)
+		r.Sig("wide", e.wideKeys)
+	}
 	if err := e.open(); err != nil {
 		r.Violation("open-new", "", "cannot open a new store with %+v: %v", cfg, err)
 	}
 	r.Logf("cfg %+v", cfg)
 	r.Sched.SetSwitchPct(r.Pick(100, 50, 20, 5))
+	if r.Pct(50) {
+		r.Sched.EnablePoint("vlog-held")
+	}
 	cycles := 1 + r.Intn(3)
 	var trace []string
 	for cyc := 0; cyc < cycles; cyc++ {
@@ -164,7 +171,11 @@ func (e *storeEnv) committer(name string, count int) {
 			tx.Get(ctx, k)
 			r.Yield("committer-after-get")
 		}
-		entries, err := e.genWrites(name, tx, 4, 300)
+		maxE, maxV := 4, 300
+		if e.wideKeys > 0 {
+			maxE, maxV = 12, 40
+		}
+		entries, err := e.genWrites(name, tx, maxE, maxV)
 		if err != nil {
 			tx.Cancel()
 			r.Violation("tx-set", "", "%s: Set failed: %v", name, err)
